@@ -207,6 +207,7 @@ type (
 	RMsgBody      struct {
 		Prep, CVs, PCs, CMs []*Payload
 		order               func(n int) []int // permutation source for the getters (nil = index order)
+		note                func(which string, perm []int)
 	}
 )
 
@@ -354,16 +355,21 @@ func (b *RMsgBody) AddPayload(p dbft.ConsensusPayload[H]) {
 		b.CMs = append(b.CMs, q)
 	}
 }
-func (b *RMsgBody) perm(l []*Payload) []dbft.ConsensusPayload[H] {
+func (b *RMsgBody) perm(which string, l []*Payload) []dbft.ConsensusPayload[H] {
 	r := make([]dbft.ConsensusPayload[H], 0, len(l))
+	var pm []int
 	if b.order == nil {
-		for _, q := range l {
-			r = append(r, q.clone())
+		for i := range l {
+			pm = append(pm, i)
 		}
-		return r
+	} else {
+		pm = b.order(len(l))
 	}
-	for _, i := range b.order(len(l)) {
+	for _, i := range pm {
 		r = append(r, l[i].clone())
+	}
+	if b.note != nil && len(l) > 0 {
+		b.note(which, pm)
 	}
 	return r
 }
@@ -382,16 +388,16 @@ func (b *RMsgBody) GetPrepareResponses(p dbft.ConsensusPayload[H], _ []dbft.Publ
 			l = append(l, q)
 		}
 	}
-	return b.perm(l)
+	return b.perm("resp", l)
 }
 func (b *RMsgBody) GetChangeViews(p dbft.ConsensusPayload[H], _ []dbft.PublicKey) []dbft.ConsensusPayload[H] {
-	return b.perm(b.CVs)
+	return b.perm("cvs", b.CVs)
 }
 func (b *RMsgBody) GetPreCommits(p dbft.ConsensusPayload[H], _ []dbft.PublicKey) []dbft.ConsensusPayload[H] {
-	return b.perm(b.PCs)
+	return b.perm("pcs", b.PCs)
 }
 func (b *RMsgBody) GetCommits(p dbft.ConsensusPayload[H], _ []dbft.PublicKey) []dbft.ConsensusPayload[H] {
-	return b.perm(b.CMs)
+	return b.perm("cms", b.CMs)
 }
 func (b *RMsgBody) PreparationHash() *H {
 	for _, q := range b.Prep {
